@@ -61,7 +61,17 @@ func (h *Handler) Provision(ctx caddy.Context) error {
 		allowCIDR = repl.ReplaceAll(allowCIDR, "")
 		_, n, err := net.ParseCIDR(allowCIDR)
 		if err != nil {
-			return fmt.Errorf("invalid subnet '%s': %w", allowCIDR, err)
+			// a bare address stands for the single-host range, as in the other IP matchers
+			// (the "private_ranges" shortcut expands to a list that contains "::1")
+			ip := net.ParseIP(allowCIDR)
+			if ip == nil {
+				return fmt.Errorf("invalid subnet '%s': %w", allowCIDR, err)
+			}
+			if ip4 := ip.To4(); ip4 != nil {
+				n = &net.IPNet{IP: ip4, Mask: net.CIDRMask(32, 32)}
+			} else {
+				n = &net.IPNet{IP: ip, Mask: net.CIDRMask(128, 128)}
+			}
 		}
 		h.rules = append(h.rules, proxyprotocol.Rule{Timeout: time.Duration(h.Timeout), Subnet: n})
 	}
